@@ -6,6 +6,18 @@ TRUST = ('Trusted base: rustc nightly textual MIR of the dev profile for the cur
          'per kernel in the evidence; z3; the replay driver (public API of the real crates). Bounded claim: holds for all inputs within the bounds '
          'stated per kernel in the evidence; nothing is claimed outside them. ')
 CLAIMS = {
+ 'C01': dict(text='Bounded symbolic execution of the real peg-generated expression parser (plc_parser::expression, __infix_parse and its closures, from MIR) on token sequences whose operator '
+                  'token types are symbolic; each path yields the complete ExprKind tree, compared with an Annex B.3.1 precedence-climbing reference; mismatches are replayed through parse_program.',
+             tech='SMT-guided bounded symbolic execution of rustc MIR of the generated parser (z3)', sect='§4 C01',
+             note='Kernel K1 (+K2 when listed in evidence). Outside: all other productions, whole-grammar faithfulness, literal spelling (C09).'),
+ 'C04': dict(text='Kani/CBMC proof harnesses over the compiled ironplc-dsl numeric constructors (all FixedPoint values, real time crate) decide panic freedom; '
+                  'failing checks come with concrete playback values that are replayed through the public API and through `check` of a program containing the literal.',
+             tech='bounded model checking with Kani/CBMC (bit-precise, compiled code)', sect='§4 C04', kani=True,
+             note='Kernel K2 (plus mirsym panic-site kernels when listed in evidence). Outside: stack depth, time budgets, panic sites not enumerated in evidence.'),
+ 'C09': dict(text='Kani/CBMC harnesses decide integer and duration value conversions over all 128-bit / FixedPoint values; mirsym kernels (when listed in evidence) execute the literal grammar actions on symbolic digit strings; '
+                  'models are replayed through parse_program.',
+             tech='bounded model checking with Kani/CBMC; SMT-based symbolic execution of MIR (z3)', sect='§4 C09', kani=True,
+             note='Kernels as listed in evidence. Outside: correct rounding of reals, $-escapes in strings.'),
  'C05': dict(text='Bounded symbolic execution of the real lexer::tokenize over the logos state machine lifted from MIR (all valid UTF-8 sources up to N bytes), '
                   'of preprocessor::remove_oscat_comment and of lsp_project::map_label; solver decides token tiling/text/line/col, offset preservation and span->position mapping for '
                   'every input in the bound; models are replayed through tokenize_program / the LSP binary.',
